@@ -177,21 +177,33 @@ def run(cx):
         cx.ob("R18.parent-exists", df.id + "|create-guarded-by-absence", bool(isn),
               "the CreateDirectory for a selectable must be planned exactly when the old state has no such "
               "selectable", df.loc(c.line))
-    # write-iff-changed: should_write = old.map(|h| h != new).unwrap_or(true)
+    # write-iff-changed. Two idioms decide whether a file is written: `old.map(|h| h != new).unwrap_or(true)` and a
+    # direct comparison of the two hashes in the body (`Some(h) if h == new => {}`); both are decision points.
     uo = [t for t in df.calls() if term_calls(t, r"Option::<T>::unwrap_or$")]
-    cx.floor("R18.write-iff-changed should_write computations", len(uo), 2)
+    direct = [t for t in df.calls() if re.search(r"PartialEq(<.*>)?>?::(eq|ne)$", t.declared or "") and "ArtifactHash" in " ".join(t.j.get("atys", []))]
+    cx.floor("R18.write-iff-changed decision points (should_write computations / hash comparisons)", len(uo) + len(direct), 2)
     for t in uo:
         c = op_const(t.args[1])
         cx.ob("R18.write-iff-changed", "%s|absent-old-file-is-written|L%d" % (df.id, [x.bb for x in uo].index(t.bb)),
               c is not None and c.get("v") is True,
               "a file that did not exist in the old state must be written", df.loc(t.line))
-    cmp_ok = 0
+    for k, t in enumerate(direct):
+        br = call_bool_branch(df, t)
+        if not br:
+            continue
+        same_t = br[0] if (t.declared or "").endswith("eq") else br[1]
+        written = [w for w in dwrites if df.dominates(same_t, w.bb)]
+        cx.ob("R18.write-iff-changed", "%s|equal-hash-not-rewritten#%d" % (df.id, k), not written,
+              "a file whose content hash is unchanged is written again", df.loc(t.line))
+    cmp_ok = len(direct)
     for cl in fb.closures_of(df):
         for t in cl.calls():
             if re.search(r"PartialEq(<.*>)?>?::ne$", t.declared or "") and "ArtifactHash" in " ".join(t.j.get("atys", [])):
                 cmp_ok += 1
     cx.ob("R18.write-iff-changed", df.id + "|compares-hashes", cmp_ok >= 2,
-          "should_write must be decided by comparing the old and new content hashes with `!=`", df.loc())
+          "whether a file is written must be decided by comparing the old and new content hashes", df.loc())
+    from props.fs_shared import write_index_rule
+    write_index_rule(cx, fb, "R18.write-iff-changed")
     # deletions: every Delete* push exists (entity dir, selectable dir, file, root file)
     dd = [a for a in dops if a.j["variant"] == "DeleteDirectory"]
     dfl = [a for a in dops if a.j["variant"] == "DeleteFile"]
